@@ -1252,7 +1252,7 @@ func (r *Reader) searchStreams(ctx context.Context, result *resultData, subQuery
 			if ok {
 				groupPos = pos
 				if sortingLess == nil || !sortingLess(ss, result.streams[pos]) {
-					result.resultDropped++
+					// (its group is in the result already: nothing is left out)
 					return false, nil
 				}
 			}
